@@ -130,7 +130,14 @@ def inject(rnd, r):
     if k == "tag":
         i = rnd.randrange(len(r["tags"]))
         t = r["tags"][i]
-        what = rnd.choice(["no position", "position length", "extent length", "unit count", "tag unit", "unconvertible unit"])
+        what = rnd.choice(["no position", "position length", "extent length", "unit count", "tag unit", "unconvertible unit",
+                           "reference of another rank"])
+        if what == "reference of another rank":
+            other = [j for j, a in enumerate(r["arrays"]) if len(a["shape"]) != t["npos"] and j not in t["refs"]]
+            if not other or not t["refs"]:
+                return None
+            t["refs"] = t["refs"] + [rnd.choice(other)]
+            return (what, ("tags", i))
         if not t["refs"] and what in ("position length", "extent length", "unit count"):
             return None        # lengths are defined relative to the references (DESIGN: interpretation)
         if what == "no position":
@@ -156,7 +163,15 @@ def inject(rnd, r):
         return (what, ("tags", i))
     i = rnd.randrange(len(r["mtags"]))
     t = r["mtags"][i]
-    what = rnd.choice(["no positions", "empty positions", "positions width", "extents shape", "extents width", "unit count", "tag unit"])
+    what = rnd.choice(["no positions", "empty positions", "positions width", "extents shape", "extents width", "unit count", "tag unit",
+                       "reference of another rank"])
+    if what == "reference of another rank":
+        width = t["pos"][1] if t["pos"] and len(t["pos"]) > 1 else 1
+        other = [j for j, a in enumerate(r["arrays"]) if len(a["shape"]) != width and j not in t["refs"]]
+        if not other or not t["refs"] or t["pos"] is None:
+            return None
+        t["refs"] = t["refs"] + [rnd.choice(other)]
+        return (what, ("mtags", i))
     if not t["refs"] and what in ("positions width", "extents shape", "extents width", "unit count"):
         return None
     if what == "no positions":
